@@ -142,6 +142,12 @@ def obligations(tier, seed):
                 for cut in (19, -1, 5):
                     out.append(ob('C18/step/%s/%s/cut=%d' % (S.STATE_NAMES[state], ev, cut), 'ob_step',
                                   {'state': state, 'ev': ev, 'cut': cut}, covers=['stepped'], cap=120))
+            if ev in ('rr', 'rr128'):
+                # the same with the route-refresh capabilities switched off locally: a frame from the wire is counted
+                # whether or not the agent likes it
+                caps = dict(S.DEFAULT_CFG['caps'], route_refresh=False, cisco_route_refresh=False, enhanced_route_refresh=False)
+                out.append(ob('C18/step/%s/%s/no-local-rr-capability' % (S.STATE_NAMES[state], ev), 'ob_step',
+                              {'state': state, 'ev': ev, 'cfg': {'caps': caps}}, covers=['stepped'], cap=120))
             if ev == 'badlen':
                 for (t, ln) in SC.BADLEN[1:]:
                     out.append(ob('C18/step/%s/%s/type=%d/len=%d' % (S.STATE_NAMES[state], ev, t, ln), 'ob_step',
